@@ -25,7 +25,9 @@ RULE = ("400 (quick) / 8 x 1500 (thorough) histories after the corpus, each of 3
         "trajectory of 1..5 states, dynamic without prediction, in 15 % of the histories one dynamic obstacle with a "
         "SetBasedPrediction; rectangle axis-aligned or rotated, circle, polygon, shape group) "
         "on networks of 2..7 lanelets (parallel lanes sharing a boundary, successor lanes, a crossing lane, a bent lane, a far "
-        "lane), all coordinates on the grid k/16; obstacle centres sit in a lane, exactly on a shared boundary, half a width "
+        "lane; in 30 % of the networks 1..3 lanelets are COPIES of another one under a new id: the same vertices in the same order "
+        "(polygons equal by value), the same strip driven the other way, or the same region with an extra collinear vertex - every "
+        "copy has to appear in the recorded sets and has to list the obstacle, buckets geo/identical-polygons-*), all coordinates on the grid k/16; obstacle centres sit in a lane, exactly on a shared boundary, half a width "
         "away from it (shape touches / overlaps the neighbour while the centre does not), or off the road. "
         "Every history is then diversified along the generator-audit table (DIM_SIGNATURES / DIM_MEMBERS): list forms, network-level "
         "and replace_lanelet_network entry points, argument containers and numpy scalars, empty / repeated time steps, id 0, time steps "
